@@ -189,6 +189,9 @@ def main_check(pid: str, tier: str) -> int:
             if verdict[2] not in search_cache:
                 search_cache[verdict[2]] = prop.search(random.Random(f"{seed}/search/{i}"), r["case"])
             found = search_cache[verdict[2]]
+            if found is not None and found.get("key", verdict[2]) in known:
+                # the search stumbled on a catalogued finding: that does not explain why the implementation departs from the model HERE
+                found = None
             if found is not None:
                 payload.update({"failing_input": found})
                 report(found.get("key", verdict[2]), found.get("what", verdict[1]), payload)
@@ -197,6 +200,8 @@ def main_check(pid: str, tier: str) -> int:
                 report(verdict[2], verdict[1] + " (no property-level failing input found)", payload)
     if proof_broken:
         found = prop.search(random.Random(f"{seed}/search/proof"), None)
+        if found is not None and found.get("key") in known:
+            found = None
         payload = {"kind": "proof-obligation", "obligation": f"coq/theories/Properties/{pid}.v", "log": proof.get("log", ""),
                    "unexpected_axioms": bad_axioms, "forbidden_tokens": proof.get("forbidden")}
         if found is not None:
